@@ -53,6 +53,7 @@ def main (args : List String) : IO UInt32 := do
   | ["model", "c12"] => run C12.machine; return 0
   | ["monitor", "c12"] => runMonitor C12.monitor; return 0
   | ["monitor", "c12pipe"] => runMonitor C12.monitorPipe; return 0
+  | ["monitor", "buyerworld"] => runMonitor C16.monitorBW; return 0
   | ["model", "c17"] => run C17.machine; return 0
   | ["model", "c18"] => run C18.machine; return 0
   | ["monitor", "life"] => runMonitor LifeMon.monitor; return 0
